@@ -122,6 +122,20 @@ def gen(c, chunkings):
             p = params("gcm_enc")
             p.update(iv=rb(il), taglen=tl)
             add(f="gcm_enc", api="oneshot", msg=rb(rng.choice([0, 5, 16, 47])), **p)
+    # counter carries inside the CCM counter field: a long nonce leaves a 2-byte counter, which crosses a byte boundary after 255 blocks
+    for nl, ln in ((13, 4079), (13, 4080), (13, 4081), (13, 4097), (12, 4112)) + (((13, 8192), (13, 65519), (11, 70000)) if not c.quick else ()):
+        for f in ("ccm_enc", "ccm_dec"):
+            p = params(f)
+            p.update(iv=rb(nl), taglen=16)
+            add(f=f, api="oneshot", msg=dec_input(f, p, rb(ln)) if "dec" in f else rb(ln), **p)
+    # counter carries in CTR / CTR32 / GCM: many blocks from a counter whose low byte is about to wrap, and long messages
+    for f in ("ctr", "ctr32", "ofb", "cbc_enc", "gcm_enc"):
+        for ln in ((4096, 4113) if c.quick else (4096, 4113, 16384, 70000)):
+            p = params(f)
+            if f.startswith("ctr"):
+                p["iv"] = rb(12) + bytes([rng.randrange(256), 0xff, 0xff, 0xf0 + rng.randrange(16)])
+            add(f=f, api="oneshot", msg=rb(ln), **p)
+            add(f=f, api="stream", msg=rb(ln), chunks="%d,%d" % (rng.randrange(1, 4000), rng.randrange(1, 97)), **p)
     # block_cipher dispatch
     for cipher in ("sm4",):
         for f in ("ecb_enc", "ecb_dec"):
